@@ -7,3 +7,7 @@ import sdk "github.com/cosmos/cosmos-sdk/types"
 // VerifSharesBeforeModified is a read-only accessor used by the /verif
 // correspondence harness; it is compiled only with the `verif` build tag.
 func VerifSharesBeforeModified() sdk.Dec { return sharesBeforeModified }
+
+// VerifResetGlobals puts the package-level state back to its value at process start; the
+// harness uses it to model a node restart without re-opening the database.
+func VerifResetGlobals() { sharesBeforeModified = sdk.NewDec(0) }
